@@ -13,7 +13,7 @@ import json
 import os
 
 from pyvc.api import contract, lemma, custom, Int, Bool, Str, Opt, Rec, SeqOf, TupleOf, implies, call, mk, ih
-from contracts._common import ViolationT, PathT, path_str, py_unparse
+from contracts._common import ViolationT, PathT, path_str, py_unparse, py_walk
 from contracts._nodes import TSNode, PyNode
 from contracts import c12_core  # noqa: F401  (contracts of the core builders these sites call)
 
@@ -922,10 +922,10 @@ class SCFindStatelessClasses:
         return tree is not None
 
     def ensures_each_class_once_at_its_header(tree, min_methods, result):
-        return result == sc_collect(tree.walk, min_methods)
+        return result == sc_collect(py_walk(tree), min_methods)
 
     def inv0(tree, min_methods, results, rest):
-        return sc_collect(tree.walk, min_methods) == results + sc_collect(rest, min_methods)
+        return sc_collect(py_walk(tree), min_methods) == results + sc_collect(rest, min_methods)
 
 
 # ================================================================== print-statements: node -> (node, parent, line) -> violation
@@ -991,10 +991,10 @@ class CollectPrintCalls:
         return tree is not None
 
     def ensures_each_print_call_once_with_its_own_line(self, tree, old):
-        return self.print_calls == old.self.print_calls + print_calls_of(tree.walk, self.parent_map)
+        return self.print_calls == old.self.print_calls + print_calls_of(py_walk(tree), self.parent_map)
 
     def inv0(self, tree, old, rest):
-        return old.self.print_calls + print_calls_of(tree.walk, self.parent_map) == \
+        return old.self.print_calls + print_calls_of(py_walk(tree), self.parent_map) == \
             self.print_calls + print_calls_of(rest, self.parent_map)
 
 
